@@ -1034,7 +1034,7 @@ class Spec:
     props_module = "Mhd.Props.C05"
     lean_targets = ["Mhd.Props.C05", "drv_sm"]
     required_theorems = ["Mhd.C05.protocol_accepts", "Mhd.C05.protocol_complete", "Mhd.C05.aware_iff_open_request",
-                         "Mhd.C05.closed_only_unaware", "Mhd.C05.start_close_paired", "Mhd.C05.refused_silent", "Mhd.C05.upgraded_holds_no_response", "Mhd.C05.idle_fuel_sufficient", "Mhd.C05.body_fuel_sufficient",
+                         "Mhd.C05.closed_only_unaware", "Mhd.C05.start_close_paired", "Mhd.C05.tpc_shutdown_is_shutdownClose", "Mhd.C05.chunked_body_accounting_partial", "Mhd.C05.refused_silent", "Mhd.C05.upgraded_holds_no_response", "Mhd.C05.idle_fuel_sufficient", "Mhd.C05.body_fuel_sufficient",
                          "Mhd.C05.upload_accounting", "Mhd.C05.upload_complete_length", "Mhd.C05.early_response_discards_upload",
                          "Mhd.C05.protocol_accepts_fixed", "Mhd.C05.tree_f9_fixed",
                          "Mhd.C05.tree_other_repairs", "Mhd.C05.protocol_accepts_tree", "Mhd.C05.witness_f9",
